@@ -47,4 +47,8 @@ static Sc pi, PI;
 #define VF_ASSERT(c, n) do { } while (0)
 #define __CPROVER_assume(c) VF_ASSUME(c)
 static int vf_assume_failed;
+#ifndef true
+#define true 1
+#define false 0
+#endif
 #endif
